@@ -38,6 +38,9 @@ Inductive res (A : Type) := Ok (a : A) | Err (e : err).
 Arguments Ok {A} a.
 Arguments Err {A} e.
 
+Definition is_ok {A : Type} (r : res A) : bool :=
+  match r with Ok _ => true | Err _ => false end.
+
 Definition err_eqb (a b : err) : bool :=
   match a, b with
   | ValueErr, ValueErr | RuntimeErr, RuntimeErr | AssertErr, AssertErr
